@@ -47,6 +47,8 @@ type BridgeCfg struct {
 	Seeds    [][]engine.Op
 	MaxCancelID int64
 	NoPrices bool
+	NoPriceFor []string // oracle price names missing from genesis (the others are present)
+	ExecFeePaid int64   // gas cost (wei) the relayer reports for an executed batch; 0 = 3
 	ParamsMod func(p *mhubtypes.Params) // applied to the genesis params last
 	ParamChanges [][2]string // governance parameter changes (key, JSON value) of the mhub2 subspace offered as op Param(i)
 	Relist   []int // token rows a governance TokenInfosChangeProposal may remove from / put back on the list (op Relist)
@@ -99,7 +101,13 @@ func (b *Bridge) Genesis() hub.Genesis {
 	if !b.Cfg.NoPrices {
 		var pl []*oracletypes.Price
 		for i, n := range []string{"eth", "ethereum/gas", "bnb", "bsc/gas", "hub"} {
-			pl = append(pl, &oracletypes.Price{Name: n, Value: sdk.NewDec(int64(3 + i))})
+			skip := false
+			for _, x := range b.Cfg.NoPriceFor {
+				skip = skip || x == n
+			}
+			if !skip {
+				pl = append(pl, &oracletypes.Price{Name: n, Value: sdk.NewDec(int64(3 + i))})
+			}
 		}
 		g.Oracle.Prices = &oracletypes.Prices{List: pl}
 	}
@@ -587,6 +595,9 @@ func (b *Bridge) Ops(s *HState) []engine.Op {
 			ops = append(ops, engine.OpN("ColdStorage", ch, c.SendDenoms[0]))
 		}
 	}
+	if on("ColdStorage2") {
+		ops = append(ops, engine.OpN("ColdStorage", "ethereum", "hub", "eth"))
+	}
 	return ops
 }
 
@@ -659,6 +670,14 @@ func (b *Bridge) Do(in *hub.Instance, gg Ghost, op engine.Op, st *engine.Step) {
 		b.doSend(in, g, op, pre, preBal, st)
 	case "Send2":
 		b.doSend2(in, g, op, st)
+	case "SendMany":
+		// op.I[0] ordinary withdrawals (first amount, first fee) in as many transactions
+		for i := int64(0); i < op.I[0]; i++ {
+			var s2 engine.Step
+			s2.Counters = map[string]int{}
+			b.doSend(in, g, engine.OpN("Send", op.S[0], op.S[1], 0, 0, 0), pre, preBal, &s2)
+		}
+		st.Obs = fmt.Sprint("many", op.I[0])
 	case "Cancel":
 		b.doCancel(in, g, op, pre, preBal, st)
 	case "ReqBatch":
@@ -772,7 +791,11 @@ func (b *Bridge) Do(in *hub.Instance, gg Ghost, op engine.Op, st *engine.Step) {
 		st.Obs = fmt.Sprint(err == nil, want)
 	case "ColdStorage":
 		ch, d := op.S[0], op.S[1]
-		err := in.Proposal(&mhubtypes.ColdStorageTransferProposal{ChainId: ch, Amount: sdk.NewCoins(sdk.NewInt64Coin(d, 777))})
+		amt := sdk.NewCoins(sdk.NewInt64Coin(d, 777))
+		if len(op.S) > 2 {
+			amt = amt.Add(sdk.NewInt64Coin(op.S[2], 555)) // a proposal naming two assets
+		}
+		err := in.Proposal(&mhubtypes.ColdStorageTransferProposal{ChainId: ch, Amount: amt})
 		st.Obs = fmt.Sprint(err == nil)
 	default:
 		panic("unknown op " + op.Kind)
@@ -911,6 +934,13 @@ func (b *Bridge) doDeposit(in *hub.Instance, g *bridgeGhost, op engine.Op, st *e
 	st.Obs = "dep"
 }
 
+func (b *Bridge) feePaid() sdk.Int {
+	if b.Cfg.ExecFeePaid > 0 {
+		return sdk.NewInt(b.Cfg.ExecFeePaid)
+	}
+	return sdk.NewInt(3)
+}
+
 func (b *Bridge) doExec(in *hub.Instance, g *bridgeGhost, op engine.Op, st *engine.Step) {
 	ch, tok := op.S[0], op.S[1]
 	nonce := uint64(op.I[0])
@@ -964,7 +994,7 @@ func (b *Bridge) doExec(in *hub.Instance, g *bridgeGhost, op engine.Op, st *engi
 	g.EvNonce[ch]++
 	g.ExtHeight[ch]++
 	ev := &mhubtypes.BatchExecutedEvent{ExternalCoinId: tok, EventNonce: g.EvNonce[ch], ExternalHeight: g.ExtHeight[ch], BatchNonce: nonce,
-		TxHash: fmt.Sprintf("0xexec-%s-%d", ch, g.EvNonce[ch]), FeePaid: sdk.NewInt(3), FeePayer: hub.HexAddr("relayer")}
+		TxHash: fmt.Sprintf("0xexec-%s-%d", ch, g.EvNonce[ch]), FeePaid: b.feePaid(), FeePayer: hub.HexAddr("relayer")}
 	g.Pending = append(g.Pending, pendingEvent{Chain: ch, Kind: "exec", Token: tok, Nonce: nonce, EvNonce: g.EvNonce[ch], Height: g.ExtHeight[ch]})
 	b.observe(in, ch, ev, st)
 	st.Count("batches_executed_externally", 1)
@@ -1001,7 +1031,7 @@ func (b *Bridge) doExecOld(in *hub.Instance, g *bridgeGhost, op engine.Op, st *e
 	g.EvNonce[ch]++
 	g.ExtHeight[ch]++
 	ev := &mhubtypes.BatchExecutedEvent{ExternalCoinId: tok, EventNonce: g.EvNonce[ch], ExternalHeight: g.ExtHeight[ch], BatchNonce: nonce,
-		TxHash: fmt.Sprintf("0xexec-%s-%d", ch, g.EvNonce[ch]), FeePaid: sdk.NewInt(3), FeePayer: hub.HexAddr("relayer")}
+		TxHash: fmt.Sprintf("0xexec-%s-%d", ch, g.EvNonce[ch]), FeePaid: b.feePaid(), FeePayer: hub.HexAddr("relayer")}
 	g.Pending = append(g.Pending, pendingEvent{Chain: ch, Kind: "exec-old", Token: tok, Nonce: nonce, EvNonce: g.EvNonce[ch], Height: g.ExtHeight[ch]})
 	b.observe(in, ch, ev, st)
 	st.Count("withdrawn_batches_executed_externally", 1)
@@ -1122,7 +1152,7 @@ func bridgeCfgFor(prop, tier string) (BridgeCfg, engine.Config) {
 		cfg.DepDests = []string{"hub", "minter"}
 		cfg.Seeds = [][]engine.Op{{}, seedObserved}
 	case "C01":
-		cfg.Ops = opsSet("Next", "Send", "Cancel", "ReqBatch", "Exec", "Deposit", "ExtAdvance", "NextTimeout", "ColdStorage", "Idle")
+		cfg.Ops = opsSet("Next", "Send", "Cancel", "ReqBatch", "Exec", "Deposit", "ExtAdvance", "NextTimeout", "ColdStorage", "ColdStorage2", "Idle")
 		cfg.DepDests = []string{"hub", "minter", "ethereum"}
 		cfg.DepChains = []string{"ethereum", "minter"}
 		cfg.DepFees = []int64{0, 3}
@@ -1249,6 +1279,18 @@ func init() {
 		hd.SendDenoms = []string{"hub"}
 		hd.Ops = opsSet("Next", "Deposit", "ReqBatch", "Exec")
 		hd.Seeds = [][]engine.Op{append(append([]engine.Op{}, seedObserved...), engine.OpN("Deposit", "minter", "hub", "ethereum", 0, 0), engine.OpN("Next", 5))}
+		hd6 := hd
+		hd6.Tokens = stdTokens(6)
+		hd6.DepAmts = []int64{2_000_000_000_000_000} // 2000 units at 6 decimals
+		hd6.DepFees = []int64{3_000_000_000_000, 40_000_000_000_000}
+		hd6.ExecFeePaid = 1_000_000_000_000 // valued at 6.4e11 hub units: below the fees collected, far above a fee counted in external units
+		// the oracle knows the gas coin's price but has not attested the token's price yet (a freshly listed token)
+		pp := cfg
+		pp.NoPriceFor = []string{"hub"}
+		pp.Seeds = [][]engine.Op{seedObserved}
+		pp.Ops = opsSet("Next", "Send", "ReqBatch", "Exec")
+		pp.SendChains = []string{"ethereum"}
+		pp.SendDenoms = []string{"hub"}
 		// two withdrawals of one hub transaction: one cancelled, the other batched; the batch is then withdrawn
 		sh := cfg
 		sh.Seeds = [][]engine.Op{seedSharedHash}
@@ -1263,6 +1305,8 @@ func init() {
 			{Name: "mixed-case contract ids (0xa47c.. = hub, 0xC02a.. = eth), three pending batches", Spec: NewBridge(mk(ust, weth)), Cfg: ecb},
 			{Name: "transfers whose commission is smaller than the number of validators", Spec: NewBridge(dd), Cfg: ecb},
 			{Name: "24-decimals token, fee-paying transfers from Minter, fee surplus at execution", Spec: NewBridge(hd), Cfg: ecb},
+			{Name: "6-decimals token, fee-paying transfers from Minter, fee surplus at execution", Spec: NewBridge(hd6), Cfg: ecb},
+			{Name: "gas coin price known, token price not attested yet", Spec: NewBridge(pp), Cfg: ecb},
 			{Name: "two withdrawals of one transaction, one cancelled, the other in a batch", Spec: NewBridge(sh), Cfg: ecb}}, bridgeAssumptions(cfg)
 	}))
 	Register("C15", MultiRunner(func(tier string) ([]MultiCase, []string) {
@@ -1300,6 +1344,15 @@ func init() {
 			{"EthereumSignaturesWindow", `"0"`}, {"UnbondSlashingSignerSetTxsWindow", `"0"`}, {"TargetEthTxTimeout", `"60000"`}, {"AverageBlockTime", `"100"`},
 			{"AverageEthereumBlockTime", `"100"`}, {"AverageBscBlockTime", `"100"`}, {"SlashFractionBatch", `"0.000000000000000000"`}, {"ContractHash", `""`},
 			{"BridgeChainID", `"0"`}, {"GravityID", `""`}}
+		// more key registrations per chain than one page of any paginated walk holds
+		many := cfg
+		many.Powers = append([]int64{10, 10, 10}, make([]int64, 101)...)
+		many.Ops = opsSet("Next", "Deposit")
+		many.DepDests = []string{"hub"}
+		many.Seeds = [][]engine.Op{{}}
+		ecm := ec
+		ecm.MaxDepth = 2
+		ecm.Deadline = ec.Deadline / 3
 		ecg := ec
 		ecg.MaxDepth = 3
 		ecg.Deadline = ec.Deadline / 3
@@ -1317,6 +1370,7 @@ func init() {
 				p.TargetEthTxTimeout, p.AverageBlockTime, p.AverageEthereumBlockTime, p.AverageBscBlockTime = 60000, 100, 100, 100
 			}),
 			{Name: "parameters changed by governance on the running chain", Spec: NewBridge(gov), Cfg: ecg},
+			{Name: "104 validators with registered keys (101 of them unbonded candidates)", Spec: NewBridge(many), Cfg: ecm},
 		}, bridgeAssumptions(cfg)
 	}))
 	Register("C10", MultiRunner(func(tier string) ([]MultiCase, []string) {
@@ -1340,8 +1394,21 @@ func init() {
 		ecs := ec
 		ecs.MaxDepth = 4
 		ecs.Deadline = ec.Deadline / 2
+		// a pool that is larger than a batch: 100 waiting transfers of one token, then transfers of very different amounts
+		// (the commission grows with the amount; only the bridge fee ranks a transfer)
+		big := cfg
+		big.Ops = opsSet("Next", "Send", "ReqBatch")
+		big.SendChains = []string{"ethereum"}
+		big.SendDenoms = []string{"hub"}
+		big.Amounts = []int64{1000, 1_000_000_000}
+		big.Fees = []int64{7, 5, 9}
+		big.Seeds = [][]engine.Op{{engine.OpN("SendMany", "ethereum", "hub", 100)}}
+		ecb2 := ec
+		ecb2.MaxDepth = 3
+		ecb2.Deadline = ec.Deadline / 2
 		return []MultiCase{{Name: "pools and permissionless requests", Spec: NewBridge(cfg), Cfg: ec}, {Name: "batches timing out and being rebuilt", Spec: NewBridge(to), Cfg: ect},
-			{Name: "two withdrawals of one transaction, one cancelled", Spec: NewBridge(sh), Cfg: ecs}}, bridgeAssumptions(cfg)
+			{Name: "two withdrawals of one transaction, one cancelled", Spec: NewBridge(sh), Cfg: ecs},
+			{Name: "a pool of more than 100 transfers of one token, amounts differing by six orders of magnitude", Spec: NewBridge(big), Cfg: ecb2}}, bridgeAssumptions(cfg)
 	}))
 	for _, p := range []string{"C04", "C12"} {
 		prop := p
